@@ -14,7 +14,8 @@ DV = 1000
 def run_op(ra, p):
     op = p["op"]
     if op == "cumsum":
-        return np.cumsum(ra, axis=-1) if p.get("via") == "np" else ra.cumsum(axis=-1)
+        kw = {"dtype": p["cdtype"]} if p.get("cdtype") else {}
+        return np.cumsum(ra, axis=-1, **kw) if p.get("via") == "np" else ra.cumsum(axis=-1, **kw)
     if op in ("acc_add", "acc_subtract", "acc_bitwise_xor"):
         return getattr(np, op[4:]).accumulate(ra, axis=-1)
     if op == "sort":
@@ -96,7 +97,11 @@ def sym(E, p, kf):
         wide = data
         if p.get("idt"):
             w = np.dtype(p["idt"]).itemsize * 8
-            if not p.get("small"):
+            if p.get("cdtype"):
+                # dtype=: the sums are accumulated and returned in that type (here the input's own narrow type: they wrap)
+                if S and res["dtype"] != p["cdtype"]:
+                    return dict(goal=False, got=got, case=case)
+            elif not p.get("small"):
                 wide = [d if w == 64 else (z3.ZeroExt(64 - w, d) if p["idt"].startswith("u") else z3.SignExt(64 - w, d)) for d in data]
             # a 64-bit integer input keeps its type (every other type loses some of its values); for narrower inputs only the numbers are claimed
             if w == 64 and res["dtype"] != p["idt"]:
@@ -204,7 +209,12 @@ def conc(case):
     ra = mk_ragged(RaggedArray, data, lens, idt or "int64")
     got = outcome(lambda: (run_op(ra, p), ra))
     same = common.ref_ragged(rows, idt or "int64")
-    if scan and idt:
+    if scan and idt and p.get("cdtype"):
+        w = np.dtype(idt).itemsize * 8
+        wrap = (lambda v: v % (1 << w)) if idt.startswith("u") else (lambda v: (v + (1 << (w - 1))) % (1 << w) - (1 << (w - 1)))
+        exp = common.ref_ragged([[wrap(v) for v in _scan(r, op)] for r in rows], p["cdtype"])
+        return got, dict(k="tuple", items=[exp, same]), {"dtype_matters": bool(data)}
+    elif scan and idt:
         wrap = (lambda v: v % (1 << 64)) if idt.startswith("u") else (lambda v: (v + (1 << 63)) % (1 << 64) - (1 << 63))
         exp = common.ref_ragged([[wrap(v) for v in _scan(r, op)] for r in rows], "uint64" if idt.startswith("u") else "int64")
         if np.dtype(idt).itemsize < 8:
@@ -240,6 +250,9 @@ def jobs(tier, seed):
     for idt in ("uint8", "int32", "int8"):
         out.append(dict(base, op="cumsum", idt=idt, R=2 if q else 3, L=3))
     out.append(dict(base, op="cumsum", idt="uint64", small=True))
+    for via in ("np", "method"):
+        for idt in ("int8", "uint8"):
+            out.append(dict(base, op="cumsum", idt=idt, cdtype=idt, via=via, R=2, L=3))
     out.append(dict(base, op="acc_add", idt="uint64", small=True))
     if not q:
         out.append(dict(base, op="cumsum", idt="uint64", R=2, L=2))      # full 64-bit range, wrapping
